@@ -1,19 +1,28 @@
 ------------------------------- MODULE T_C05 -------------------------------
 EXTENDS Integers, Sequences, FiniteSets, TLC, Json, IOUtils, P_C05
 Rec == ndJsonDeserialize(IOEnv.TRACE)
-VARIABLES l, mon, mode, bad
-tvars == <<l, mon, mode, bad>>
-TInit == l = 1 /\ mon = PInit(1) /\ mode = "skip" /\ bad = <<>>
+\* mon2: the same monitor following the other reading of when a delayed speed change is due (P_C05 Walk, `early`); a session
+\* is rejected when neither reading explains it ("alive" tells which are still in the race)
+VARIABLES l, mon, mon2, alive, mode, bad
+tvars == <<l, mon, mon2, alive, mode, bad>>
+TInit == l = 1 /\ mon = PInit(1) /\ mon2 = PInit(1) /\ alive = <<TRUE, TRUE>> /\ mode = "skip" /\ bad = <<>>
 TNext ==
   /\ l <= Len(Rec)
   /\ l' = l + 1
   /\ LET e == Rec[l] IN
-     IF e.a = "reset" THEN mon' = [PInit(e.b) EXCEPT !.speed = e.speed0] /\ mode' = "ok" /\ bad' = bad
-     ELSE IF mode = "skip" \/ e.a = "end" THEN UNCHANGED <<mon, mode, bad>>
-     ELSE LET r == Check(mon, e) IN
-          IF r = "" THEN mon' = Upd(mon, e) /\ UNCHANGED <<mode, bad>>
-          ELSE /\ mode' = "skip" /\ UNCHANGED mon
-               /\ bad' = Append(bad, [s |-> e.s, i |-> e.i, a |-> e.a, reason |-> r])
+     IF e.a = "reset" THEN /\ mon' = [PInit(e.b) EXCEPT !.speed = e.speed0]
+                           /\ mon2' = [PInit(e.b) EXCEPT !.speed = e.speed0, !.early = TRUE]
+                           /\ alive' = <<TRUE, TRUE>> /\ mode' = "ok" /\ bad' = bad
+     ELSE IF mode = "skip" \/ e.a = "end" THEN UNCHANGED <<mon, mon2, alive, mode, bad>>
+     ELSE LET r1 == IF alive[1] THEN Check(mon, e) ELSE "x"
+              r2 == IF alive[2] THEN Check(mon2, e) ELSE "x"
+          IN IF r1 = "" \/ r2 = ""
+             THEN /\ mon' = IF r1 = "" THEN Upd(mon, e) ELSE mon
+                  /\ mon2' = IF r2 = "" THEN Upd(mon2, e) ELSE mon2
+                  /\ alive' = <<r1 = "", r2 = "">> /\ UNCHANGED <<mode, bad>>
+             ELSE /\ mode' = "skip" /\ UNCHANGED <<mon, mon2, alive>>
+                  \* (reported under the clause of the first reading still in the race)
+                  /\ bad' = Append(bad, [s |-> e.s, i |-> e.i, a |-> e.a, reason |-> IF alive[1] THEN r1 ELSE r2])
 TSpec == TInit /\ [][TNext]_tvars
 Done == l = Len(Rec) + 1
 Report == Done => /\ PrintT(<<"BAD", ToJson(bad)>>)
